@@ -14,24 +14,24 @@ from common import Violation, write_replay  # noqa: E402
 
 # property -> list of (family, quick count, thorough count, steps)
 PLAN = {
-    'C01': [('hist', 24, 200, 8), ('roundtrip', 16, 120, 0)],
-    'C02': [('hist', 40, 400, 14)],
-    'C03': [('hist', 40, 400, 14)],
+    'C01': [('hist', 48, 400, 8), ('roundtrip', 60, 400, 0)],
+    'C02': [('hist', 120, 1200, 14)],
+    'C03': [('hist', 120, 1200, 14)],
     'C04': [('interfere', 24, 200, 0)],
-    'C05': [('crash', 28, 160, 0)],
-    'C06': [('crash', 28, 160, 0)],
-    'C07': [('streamprog', 40, 400, 0)],
-    'C08': [('handles', 40, 400, 0)],
-    'C09': [('hist', 40, 400, 14)],
-    'C10': [('hist', 32, 300, 12)],
-    'C11': [('hist', 32, 300, 14)],
-    'C12': [('hist', 32, 300, 10)],
-    'C13': [('hist', 40, 400, 14)],
-    'C14': [('hist', 32, 300, 8)],
+    'C05': [('crash', 40, 200, 0)],
+    'C06': [('crash', 40, 200, 0), ('fdsync', 4, 16, 0)],
+    'C07': [('streamprog', 120, 1200, 0)],
+    'C08': [('hist', 120, 1200, 14)],
+    'C09': [('hist', 120, 1200, 14)],
+    'C10': [('hist', 96, 900, 12)],
+    'C11': [('hist', 96, 900, 14)],
+    'C12': [('hist', 96, 900, 10)],
+    'C13': [('hist', 120, 1200, 14)],
+    'C14': [('hist', 96, 900, 8)],
     'C15': [('backup', 10, 60, 0)],
     'C16': [('hist', 16, 120, 6), ('merge', 1, 1, 0)],
-    'C17': [('fault', 28, 160, 0)],
-    'C18': [('hist', 32, 300, 14), ('fdsync', 4, 16, 0)],
+    'C17': [('fault', 40, 200, 0)],
+    'C18': [('hist', 96, 900, 14), ('fdsync', 4, 16, 0)],
 }
 
 
@@ -60,6 +60,13 @@ def run_case(args):
         return {'ok': False, 'family': family, 'index': index, 'prop': v.prop, 'msg': v.msg,
                 'data': {k: x for k, x in v.data.items() if k != '_desc'}, 'desc': rec, 'wall': time.time() - t0}
     except Exception as e:
+        tb = traceback.extract_tb(e.__traceback__)
+        repo = os.environ.get('VERIF_REPO', '/repo')
+        if tb and tb[-1].filename.startswith(os.path.join(repo, 'disk_objectstore')):
+            # the real code raised on a legal call of a case generated for this property: the operation did not complete
+            return {'ok': False, 'family': family, 'index': index, 'prop': prop,
+                    'msg': f'legal operation raised {type(e).__name__}: {str(e)[:200]} at {os.path.basename(tb[-1].filename)}:{tb[-1].lineno}',
+                    'data': {'traceback': ''.join(traceback.format_exception(e))[-2500:]}, 'desc': rec, 'wall': time.time() - t0}
         return {'ok': None, 'family': family, 'index': index, 'error': ''.join(traceback.format_exception(e))[-3000:],
                 'desc': rec, 'wall': time.time() - t0}
 
